@@ -41,6 +41,7 @@ type Profile struct {
 	NegMapProbe  bool   // templates may reference a symbol mapped only before the last move (C05)
 	RelWeight    int    // weight of relative targets against 6 for named ones (default 3)
 	EndWeight    int    // weight of each kind of end node against 6 for menu nodes (default 1)
+	StaticSyms   bool   // some external symbols are static-load symbols with per-language entries
 	InputWeight  int    // weight of input-consuming nodes (HALT .. MOVE) against 6 for menu nodes (default 2)
 }
 
@@ -111,6 +112,19 @@ func Generate(t *tape.Tape, p Profile) *App {
 		nb := t.Range(1, 3)
 		for j := 0; j < nb; j++ {
 			e.Script = append(e.Script, genBehav(t, p, e))
+		}
+		if p.StaticSyms && e.Size >= 8 && t.Chance(1, 3) {
+			e.Static = map[string]string{"": "st " + e.Name}
+			for _, lg := range a.Langs {
+				if t.Chance(2, 3) {
+					e.Static[lg] = lg + " " + e.Name
+				}
+			}
+			for k, v := range e.Static {
+				if uint32(len(v)) > e.Size {
+					e.Static[k] = v[:e.Size]
+				}
+			}
 		}
 		a.Ext = append(a.Ext, e)
 		t.End()
@@ -191,7 +205,7 @@ func Generate(t *tape.Tape, p Profile) *App {
 			}
 			for _, lg := range a.Langs {
 				if t.Chance(1, 2) {
-					m[lg] = lg + " " + l + padTo("", t.Int(6))
+					m[lg] = lg + " " + l + padTo("", t.Int(14))
 				}
 			}
 			if len(m) > 0 {
